@@ -63,3 +63,44 @@ Definition judge_q (cs : list (list pt)) (cl : list bool) (q : q06) : list Z :=
 
 Definition judge (c : case06) : list Z :=
   flat_map (judge_q (cContours c) (cClosed c)) (cQueries c).
+
+(* ------------------------------------------------------------------ curved paths, CCW, Filling (property oracle only) *)
+From CV Require Import Bool.Check.
+
+(** curved paths: the specification is the winding number of Go's fine flattening of the path (closed
+    subpaths only), evaluated at query points whose exact distance to the flattening is at least sqrt(g2)
+    (far more than the flattening tolerance) *)
+Record qc06 := mkQC06 { cx : Z; cy : Z; cW : Z; cWb : bool; cC : Z; cCb : bool; cCont : list bool; cPanic : bool }.
+Record curve06 := mkCurve06 { vFlat : list (list pt); vG2 : Z; vQueries : list qc06 }.
+
+(** per query [flags; class]: class 0 judged, 9 skipped (too close to the curve) *)
+Definition judge_qc (flat : list (list pt)) (g2 : Z) (q : qc06) : list Z :=
+  let p := (cx q, cy q) in
+  if negb (far_path p flat g2) then [ bit (cPanic q) 64; 9 ]
+  else
+    let w := wn flat p in
+    let pW := negb (cPanic q) && (negb (cW q =? w) || cWb q) in
+    let pCont := negb (cPanic q) && negb (list_eqb Bool.eqb (cCont q) [fills 0 w; fills 1 w; fills 2 w; fills 3 w]) in
+    let pC := negb (cPanic q) && (negb (crossings_ok flat p (cC q)) || cCb q) in
+    [ bit pW 4 + bit pCont 8 + bit pC 16 + bit (cPanic q) 64; 0 ].
+
+Definition judge_curve (c : curve06) : list Z := flat_map (judge_qc (vFlat c) (vG2 c)) (vQueries c).
+
+(** CCW and Filling on paths whose contours are simple and do not touch each other: CCW of a contour is the
+    sign of its signed area; a contour is filled iff the winding number of the whole path at a witness point
+    just inside it fills under the rule.  The witness is supplied by the harness and CHECKED here: it must be
+    inside its contour and at distance >= sqrt(g2) from every edge. *)
+Record fill06 := mkFill06 {
+  fContours : list (list pt); fG2 : Z; fWitness : list pt;
+  fCCW : list bool;                 (* Go: CCW() of each subpath *)
+  fFilling : list (list bool) }.    (* Go: Filling(rule) for the four rules *)
+
+Definition judge_fill (c : fill06) : list Z :=
+  let P := fContours c in
+  let simple := (count_crossings (all_edges P) 0 =? 0) in
+  let wit_ok := forallb (fun cw => far_path (snd cw) P (fG2 c) && negb (wn [fst cw] (snd cw) =? 0)) (combine P (fWitness c)) in
+  if negb (simple && wit_ok && Nat.eqb (length P) (length (fWitness c))) then [0; 9]
+  else
+    let ccw_exp := map (fun ct => 0 <? area2 ct) P in
+    let fill_exp := map (fun rule => map (fun w => fills rule (wn P w)) (fWitness c)) [0; 1; 2; 3] in
+    [ bit (negb (list_eqb Bool.eqb ccw_exp (fCCW c))) 256 + bit (negb (list_eqb (list_eqb Bool.eqb) fill_exp (fFilling c))) 512; 0 ].
